@@ -143,7 +143,7 @@ func (vc *VC) loopFrame(hs *State, k string, old, nh Term) {
 	if len(excl) > 0 {
 		cond = "(and " + cond + " " + strings.Join(excl, " ") + ")"
 	}
-	hs.Assume(T(SBool, "(forall ((a!f Int)) (=> %s (= (select %s a!f) (select %s a!f))))", cond, nh.S, base.S))
+	hs.Assume(T(SBool, "(forall ((a!f Int)) (! (=> %s (= (select %s a!f) (select %s a!f))) :pattern ((select %s a!f))))", cond, nh.S, base.S, nh.S))
 }
 
 // ---------------------------------------------------------------------------
@@ -485,6 +485,11 @@ func VerifyFunction(L *Loaded, name string, ct *Contract, prop string) (res *Fun
 		st.Assume(Not(Eq(PArr(t), IntLit(0))))
 	}
 	fr.attachAxioms(st)
+	if ct != nil {
+		for _, ln := range ct.Uses {
+			fr.assumeLemma(ln, st)
+		}
+	}
 	// global invariants
 	for _, gcl := range L.CF.Globals {
 		st.Assume(fr.evalClauseWith(gcl, func(cp ClauseParam, old bool) Val {
@@ -590,6 +595,102 @@ func VerifyFunction(L *Loaded, name string, ct *Contract, prop string) (res *Fun
 	res.Callees = sortedKeys(vc.callees)
 	res.Assumptions = sortedKeys(vc.assumptions)
 	return
+}
+
+// assumeLemma: a lemma proved elsewhere (its own obligations belong to the
+// same property checks) is assumed here, universally quantified over its
+// parameters and over the heaps its clauses read.
+func (fr *Frame) assumeLemma(name string, st *State) {
+	vc := fr.vc
+	lc := vc.L.CF.Contracts["lemma:"+name]
+	if lc == nil {
+		fail("uses: no lemma %s", name)
+	}
+	if len(lc.Ensures) == 0 {
+		fail("uses: lemma %s has no ensures", name)
+	}
+	cfn := vc.L.SSA.Func(lc.Ensures[0].GoName)
+	// bound variables for the parameters
+	type bv struct {
+		name string
+		sort Sort
+	}
+	var bvs []bv
+	vals := map[string]Val{}
+	for i, p := range cfn.Params {
+		n := fmt.Sprintf("lv!%s!%d", mangle(name), i)
+		s := vc.specialSort(p.Type())
+		bvs = append(bvs, bv{n, s})
+		vals[p.Name()] = TV(Term{S: n, Sort: s})
+	}
+	// bound variables for the heaps
+	ls := &State{pure: true, reach: True, cells: map[*Cell]Term{}, heaps: map[string]Term{}, armed: map[*ssa.Defer]Term{}}
+	heaps := map[string]bool{}
+	for _, cl := range append(append([]*Clause{}, lc.Requires...), lc.Ensures...) {
+		if f := vc.L.SSA.Func(cl.GoName); f != nil {
+			for _, h := range vc.specHeaps(f) {
+				heaps[h] = true
+			}
+		}
+	}
+	for _, tr := range lc.Triggers {
+		for _, ms := range tr.modParsed {
+			if f := vc.L.SSA.Func(ms.goName); f != nil {
+				for _, h := range vc.specHeaps(f) {
+					heaps[h] = true
+				}
+			}
+		}
+	}
+	for _, h := range sortedKeys(heaps) {
+		n := fmt.Sprintf("lh!%s!%s", mangle(name), mangle(h))
+		bvs = append(bvs, bv{n, vc.heapSorts[h]})
+		ls.heaps[h] = Term{S: n, Sort: vc.heapSorts[h]}
+	}
+	lookup := func(cp ClauseParam, old bool) Val {
+		if v, ok := vals[cp.Name]; ok {
+			return v
+		}
+		fail("lemma %s: cannot bind %s", name, cp.Name)
+		return Val{}
+	}
+	vc.pushScope()
+	var reqs, enss []Term
+	for _, cl := range lc.Requires {
+		reqs = append(reqs, fr.evalClauseWith(cl, lookup, ls, nil))
+	}
+	for _, cl := range lc.Ensures {
+		enss = append(enss, fr.evalClauseWith(cl, lookup, ls, nil))
+	}
+	var pats []string
+	for _, tr := range lc.Triggers {
+		var terms []string
+		for _, ms := range tr.modParsed {
+			f := vc.L.SSA.Func(ms.goName)
+			var args []Val
+			for _, p := range f.Params {
+				args = append(args, vals[p.Name()])
+			}
+			vc.lastTrigger = Term{}
+			fr.evalPure(f, args, ls, nil)
+			if vc.lastTrigger.S == "" {
+				fail("lemma %s: trigger %q did not evaluate", name, ms.expr)
+			}
+			terms = append(terms, vc.lastTrigger.S)
+		}
+		pats = append(pats, ":pattern ("+strings.Join(terms, " ")+")")
+	}
+	body := vc.popScope(Implies(And(reqs...), And(enss...)))
+	var decl []string
+	for _, b := range bvs {
+		decl = append(decl, fmt.Sprintf("(%s %s)", b.name, b.sort))
+	}
+	text := body.S
+	if len(pats) > 0 {
+		text = "(! " + text + " " + strings.Join(pats, " ") + ")"
+	}
+	vc.assumptions["lemma "+name+" (proved separately) used as an axiom"] = true
+	st.Assume(T(SBool, "(forall (%s) %s)", strings.Join(decl, " "), text))
 }
 
 func (fr *Frame) attachAxioms(st *State) {
